@@ -207,3 +207,71 @@ def configure(model, info, art):
     return ("contradicted" if ok else "confirmed"), (f"{len(descs)} 'mon' descriptors (gains {[d['configuration']['sig']['data']['gain'] for d in descs]}); "
                                                      f"events reference {[descs.index(next(d for d in descs if d['uid'] == e['descriptor'])) for e in evs]} "
                                                      f"with seq_nums {[e['seq_num'] for e in evs]}")
+
+
+def lifecycle(model, info, art):
+    """a run with bundles, a monitor and interruption records: the emitted documents must form start ... stop with
+    backward references only, and a second close_run must be refused"""
+    from bluesky.utils import IllegalMessageSequence
+    problems = []
+    bd, out = _bundler(True)
+
+    class Sig:
+        parent = None
+        name = "sig"
+        hints = {"fields": ["sig"]}
+        cb = None
+
+        def read(self):
+            return {"sig": {"value": 1.0, "timestamp": 1.0}}
+
+        def describe(self):
+            return {"sig": {"dtype": "number", "shape": [], "source": "s"}}
+
+        def read_configuration(self):
+            return {}
+
+        def describe_configuration(self):
+            return {}
+
+        def subscribe(self, cb, **kw):
+            self.cb = cb
+
+        def clear_sub(self, cb):
+            self.cb = None
+    sig = Sig()
+
+    async def go():
+        await bd.open_run(Msg("open_run"))
+        bd.record_interruption("pause")
+        await bd.monitor(Msg("monitor", sig, name="mon"))
+        sig.cb()
+        await bd.create(Msg("create", name="primary"))
+        await bd.read(Msg("read", sig), sig.read())
+        await bd.save(Msg("save"))
+        sig.cb()
+        await bd.close_run(Msg("close_run", exit_status="success"))
+        try:
+            await bd.close_run(Msg("close_run"))
+            problems.append("second close_run accepted")
+        except IllegalMessageSequence:
+            pass
+    asyncio.run(go())
+    names = [n for n, d in out]
+    if names[0] != "start" or names.count("start") != 1 or names.count("stop") != 1 or names[-1] != "stop":
+        problems.append(f"document kinds {names}")
+    start_uid = out[0][1]["uid"]
+    seen, uids = set(), set()
+    for n, d in out:
+        if d["uid"] in uids:
+            problems.append(f"uid {d['uid']} emitted twice")
+        uids.add(d["uid"])
+        if n == "descriptor":
+            seen.add(d["uid"])
+            if d["run_start"] != start_uid:
+                problems.append("descriptor of another run")
+        if n == "event" and d["descriptor"] not in seen:
+            problems.append("event before its descriptor")
+        if n == "stop" and d["run_start"] != start_uid:
+            problems.append("stop of another run")
+    return ("confirmed" if problems else "contradicted"), "; ".join(problems) or f"well-formed stream {names}"
